@@ -58,9 +58,10 @@ Record state := mkst {
   ins_cached : bool;       (* the session's prepared INSERT has been executed before *)
   upd_cached : bool;       (* the session's prepared UPDATE has been executed before *)
   dead : bool;             (* process aborted *)
-  lost : bool              (* an UPDATE deleted the old chunks and then failed (finding class 3) *)
+  lost : bool;             (* an UPDATE deleted the old chunks and then failed (finding class 3) *)
+  gone : list Z            (* row ids of deleted rows: DELETE leaves the row key in the table B-tree (a tombstone) *)
 }.
-Definition st0 : state := mkst 1 [] tempty false false false false.
+Definition st0 : state := mkst 1 [] tempty false false false false [].
 
 Definition COL_C : Z := 1.                        (* column index of c *)
 Definition INLINE_MAX : Z := 16311.               (* largest text/blob insert_cached can put into a leaf cell of this table *)
@@ -94,48 +95,55 @@ Definition drop_old (m : tmap) (s : stored) : tmap :=
 Definition old_is_pointer (s : stored) : bool :=
   match s with SBytes b => is_toast_pointer b | _ => false end.
 
+(* toast_value as INSERT and UPDATE use it: the value as it goes into the record and the toast table
+   afterwards; None = the statement fails (a chunk key is already there), the chunks written before stay *)
+Definition put_value (m : tmap) (row_id : Z) (v : value) : tmap * option stored :=
+  match var_bytes v with
+  | Some b =>
+      if needs_toast b then
+        let '(m', ok) := toast_write m (chunk_id_of row_id COL_C) b in
+        (m', if ok then Some (SBytes (ptr_encode (blen b) (chunk_id_of row_id COL_C))) else None)
+      else (m, Some (SBytes b))
+  | None => (m, Some (store_scalar v))
+  end.
+
+(* insert_cached (a re-executed prepared INSERT): no TOAST; a record that does not fit a leaf cell is refused *)
+Definition put_value_cached (m : tmap) (v : value) : tmap * option stored :=
+  match var_bytes v with
+  | Some b => if blen b <=? INLINE_MAX then (m, Some (SBytes b)) else (m, None)
+  | None => (m, Some (store_scalar v))
+  end.
+
 Definition step_ins (st : state) (p : path) (k : Z) (v : value) : state * sobs :=
   let cached := match p with PS => ins_cached st | _ => false end in
   let ic := match p with PS => true | _ => ins_cached st end in
   let rid := next_rid st in
-  (* the value as it goes into the record, and the toast table after toast_value *)
-  let '(m, sv) :=
-    match var_bytes v with
-    | Some b =>
-        if cached then (if blen b <=? INLINE_MAX then (toast st, Some (SBytes b)) else (toast st, None))
-        else if needs_toast b then
-          let '(m', ok) := toast_write (toast st) (chunk_id_of rid COL_C) b in
-          (m', if ok then Some (SBytes (ptr_encode (blen b) (chunk_id_of rid COL_C))) else None)
-        else (toast st, Some (SBytes b))
-    | None => (toast st, Some (store_scalar v))
-    end in
-  match sv with
-  | None => (mkst (rid + 1) (rows st) m ic (upd_cached st) (dead st) (lost st), SWrote false)
+  let ms := if cached then put_value_cached (toast st) v else put_value (toast st) rid v in
+  match snd ms with
+  | None => (mkst (rid + 1) (rows st) (fst ms) ic (upd_cached st) (dead st) (lost st) (gone st), SWrote false)
   | Some s =>
-      if has_rid rid (rows st) then (mkst (rid + 1) (rows st) m ic (upd_cached st) (dead st) (lost st), SWrote false)
-      else (mkst (rid + 1) (ins_row (mkrow rid k s) (rows st)) m ic (upd_cached st) (dead st) (lost st), SWrote true)
+      (* the row insert: BTree::insert fails on an existing row key (live or tombstone) *)
+      if has_rid rid (rows st) || existsb (Z.eqb rid) (gone st)
+      then (mkst (rid + 1) (rows st) (fst ms) ic (upd_cached st) (dead st) (lost st) (gone st), SWrote false)
+      else (mkst (rid + 1) (ins_row (mkrow rid k s) (rows st)) (fst ms) ic (upd_cached st) (dead st) (lost st) (gone st), SWrote true)
   end.
 
 Definition step_upd (pk : bool) (st : state) (p : path) (k : Z) (v : value) : state * sobs :=
   let cached := match p with PS => upd_cached st | _ => false end in
   let uc := match p with PS => true | _ => upd_cached st end in
-  let st1 := mkst (next_rid st) (rows st) (toast st) (ins_cached st) uc (dead st) (lost st) in
+  let st1 := mkst (next_rid st) (rows st) (toast st) (ins_cached st) uc (dead st) (lost st) (gone st) in
   match find_k k (rows st) with
   | None => (st1, SWrote true)                                         (* 0 rows affected *)
   | Some r =>
       if cached && pk then (st1, SWrote false)                         (* execute_update_param_only: "unknown record format" *)
       else
+        (* delete_toast_chunks for the old pointer, then toast_value under row id = pk value (0 without an integer pk) *)
         let m1 := drop_old (toast st) (r_st r) in
         let pkv := if pk then wrap_u 64 k else 0 in
-        match var_bytes v with
-        | Some b =>
-            if needs_toast b then
-              let '(m2, ok) := toast_write m1 (chunk_id_of pkv COL_C) b in
-              if ok then (mkst (next_rid st) (set_row k (SBytes (ptr_encode (blen b) (chunk_id_of pkv COL_C))) (rows st)) m2
-                               (ins_cached st) uc (dead st) (lost st), SWrote true)
-              else (mkst (next_rid st) (rows st) m2 (ins_cached st) uc (dead st) (lost st || old_is_pointer (r_st r)), SWrote false)
-            else (mkst (next_rid st) (set_row k (SBytes b) (rows st)) m1 (ins_cached st) uc (dead st) (lost st), SWrote true)
-        | None => (mkst (next_rid st) (set_row k (store_scalar v) (rows st)) m1 (ins_cached st) uc (dead st) (lost st), SWrote true)
+        let ms := put_value m1 pkv v in
+        match snd ms with
+        | Some s => (mkst (next_rid st) (set_row k s (rows st)) (fst ms) (ins_cached st) uc (dead st) (lost st) (gone st), SWrote true)
+        | None => (mkst (next_rid st) (rows st) (fst ms) (ins_cached st) uc (dead st) (lost st || old_is_pointer (r_st r)) (gone st), SWrote false)
         end
   end.
 
@@ -143,7 +151,7 @@ Definition step_del (st : state) (k : Z) : state * sobs :=
   match find_k k (rows st) with
   | None => (st, SWrote true)
   | Some r => (mkst (next_rid st) (del_row k (rows st)) (drop_old (toast st) (r_st r))
-                    (ins_cached st) (upd_cached st) (dead st) (lost st), SWrote true)
+                    (ins_cached st) (upd_cached st) (dead st) (lost st) (r_rid r :: gone st), SWrote true)
   end.
 
 (* ---- SELECT: from_record_column, then detoast_rows *)
@@ -186,13 +194,13 @@ Definition step_query (ty : colty) (st : state) : state * sobs :=
   | Some r => (st, SRows r)
   | None =>
       if existsb is_unknown l then (st, SWeird)
-      else if existsb is_abort l then (mkst (next_rid st) (rows st) (toast st) (ins_cached st) (upd_cached st) true (lost st), SQueryAbort)
+      else if existsb is_abort l then (mkst (next_rid st) (rows st) (toast st) (ins_cached st) (upd_cached st) true (lost st) (gone st), SQueryAbort)
       else if existsb is_panic l then (st, SQueryPanic)
       else (st, SQueryErr)
   end.
 
 Definition step_reopen (st : state) : state * sobs :=
-  (mkst 1 (rows st) (toast st) false false (dead st) (lost st), SReopened true).
+  (mkst 1 (rows st) (toast st) false false (dead st) (lost st) (gone st), SReopened true).
 
 Definition step (ty : colty) (pk : bool) (st : state) (o : op) : state * sobs :=
   if dead st then (st, SNotRun) else
@@ -320,5 +328,6 @@ Fixpoint ins_keys (ops : list op) : list Z :=
 Fixpoint nodup_z (l : list Z) : bool :=
   match l with [] => true | x :: t => negb (existsb (Z.eqb x) t) && nodup_z t end.
 
-(* values fit the column; no key is inserted twice *)
-Definition wf_hist (ty : colty) (ops : list op) : bool := forallb (op_ok ty) ops && nodup_z (ins_keys ops).
+(* values fit the column; no key is inserted twice; fewer than 2^60 steps (row ids stay u64) *)
+Definition wf_hist (ty : colty) (ops : list op) : bool :=
+  forallb (op_ok ty) ops && nodup_z (ins_keys ops) && (Z.of_nat (length ops) <? 2 ^ 60).
